@@ -152,6 +152,19 @@ fn gen_inherent_impl_items(
 /// with a generated identifier: such a pattern can neither be passed on as an argument
 /// nor appear in a function without a body
 pub fn name_fn_arg_patterns(sig: &mut syn::Signature) {
+    // NOTE: Identifiers already taken by the arguments of this signature
+    let arg_idents = sig
+        .inputs
+        .iter()
+        .filter_map(|input| match input {
+            syn::FnArg::Typed(arg) => match &*arg.pat {
+                syn::Pat::Ident(pat) => Some(pat.ident.clone()),
+                _ => None,
+            },
+            syn::FnArg::Receiver(_) => None,
+        })
+        .collect::<Vec<_>>();
+
     for (idx, input) in sig.inputs.iter_mut().enumerate() {
         if let syn::FnArg::Typed(arg) = input {
             let is_plain_ident = matches!(
@@ -161,7 +174,10 @@ pub fn name_fn_arg_patterns(sig: &mut syn::Signature) {
             );
 
             if !is_plain_ident {
-                let arg_ident = format_ident!("_arg{}", idx);
+                let mut arg_ident = format_ident!("_arg{}", idx);
+                while arg_idents.contains(&arg_ident) {
+                    arg_ident = format_ident!("_{}", arg_ident);
+                }
                 arg.pat = syn::parse_quote!(#arg_ident);
             }
         }
